@@ -218,7 +218,7 @@ class CaseHooks(EBB3Hooks):
             self.bytes_used = 'a reply still of type bytes is used as text (%s)' % what
 
     def is_request(self, v):
-        return v in (self.req, self.raw)
+        return v in (self.req, self.raw, Opaque('m:lstrip', (self.raw,), 'str'))
 
     def is_reply(self, v):
         """Any text value derived from what was read from the port."""
@@ -246,6 +246,10 @@ class CaseHooks(EBB3Hooks):
         return None
 
     def name_form(self, v):
+        if isinstance(v, Opaque) and v.label in ('item', 'slice') and v.args[0] == self.raw:
+            # the request may carry surrounding whitespace (the property's quantifier): its
+            # name is read from the trimmed text, ' QG'[:2] is not a name
+            return 'characters of the untrimmed request'
         if isinstance(v, Opaque) and v.label == 'item' and self.is_request(v.args[0]) \
                 and v.args[1] == Sym.const(0):
             return 'first'
